@@ -48,7 +48,17 @@ fn alg_two_per_line<'a, 'b>(words: &'b [textwrap::core::Word<'a>], _: &'b [usize
     if words.is_empty() { vec![words] } else { words.chunks(2).collect() }
 }
 
-pub const CUSTOM_ALGS: &[char] = &['A', 'B', 'C', 'D'];
+fn alg_no_line_for_no_words<'a, 'b>(words: &'b [textwrap::core::Word<'a>], _: &'b [usize]) -> Vec<&'b [textwrap::core::Word<'a>]> {
+    words.chunks(1).collect() // no line at all for an empty paragraph
+}
+
+pub const CUSTOM_ALGS: &[char] = &['A', 'B', 'C', 'D', 'E'];
+
+fn c5(word: &str) -> Vec<usize> {
+    // directly after every '-', each point twice (what merging two point lists without
+    // de-duplication gives)
+    word.char_indices().filter(|(_, c)| *c == '-').flat_map(|(i, _)| [i + 1, i + 1]).collect()
+}
 
 pub fn splitter_of(name: &str) -> WordSplitter {
     match name {
@@ -58,6 +68,7 @@ pub fn splitter_of(name: &str) -> WordSplitter {
         "c2" => WordSplitter::Custom(c2),
         "c3" => WordSplitter::Custom(c3),
         "c4" => WordSplitter::Custom(c4),
+        "c5" => WordSplitter::Custom(c5),
         _ => panic!("splitter {}", name),
     }
 }
@@ -124,6 +135,7 @@ impl Opt {
             'B' => o.wrap_algorithm(WrapAlgorithm::Custom(alg_blank_then_first_fit)),
             'C' => o.wrap_algorithm(WrapAlgorithm::Custom(alg_all_on_one)),
             'D' => o.wrap_algorithm(WrapAlgorithm::Custom(alg_two_per_line)),
+            'E' => o.wrap_algorithm(WrapAlgorithm::Custom(alg_no_line_for_no_words)),
             _ => o.wrap_algorithm(WrapAlgorithm::FirstFit),
         };
         o
@@ -157,7 +169,7 @@ impl Opt {
             self.bw,
             match self.sep { 'u' => "UnicodeBreakProperties", 'x' => "Custom(after , or ;)", _ => "AsciiSpace" },
             match self.splitter { "n" => "NoHyphenation", "h" => "HyphenSplitter", x => x },
-            match self.alg { 'o' => "OptimalFit", 'A' => "Custom(one word per line)", 'B' => "Custom(blank line, then first-fit)", 'C' => "Custom(all on one line)", 'D' => "Custom(two words per line)", _ => "FirstFit" },
+            match self.alg { 'o' => "OptimalFit", 'A' => "Custom(one word per line)", 'B' => "Custom(blank line, then first-fit)", 'C' => "Custom(all on one line)", 'D' => "Custom(two words per line)", 'E' => "Custom(one word per line, no line for no words)", _ => "FirstFit" },
             if self.alg == 'o' && self.pen != DEFAULT_PEN { format!("{:?}", self.pen) } else { String::new() },
             if self.crlf { "CRLF" } else { "LF" },
             self.ii,
